@@ -908,3 +908,101 @@ def enum_c01_ip(tier):
 C01_IP_LAYERS = [Layer("ip-transport", run_c01_ip, enumerate=enum_c01_ip,
                        exhaustive=True, space="honest + 6 verify faults x 2 (quick) / 20 (thorough) key sets x IPv4/IPv6 peer and frame sizes; error replies under 4 status lines x 7 Content-Type "
                                               "spellings / lower-case header names", min_nontrivial=10)]
+
+
+# ---------------------------------------------------------------- C12: GATT notifications armed for every subscription, events delivered once
+def run_c12_ble(case, R):
+    from props._listeners import attach as attach_listeners, check_same as listeners_agree
+    """Subscriptions on a connected BLE pairing: after the debounce every subscribed characteristic the stack did not refuse has its GATT
+    notification armed (a refusal for one does not stop the others), a notification makes the library read the value and deliver it to every
+    listener once, and after the link is lost and re-established the notifications are armed again."""
+    ids = case["ids"]
+    fail = {int(k_): v for k_, v in case.get("fail", {}).items()}
+    R.nt(len(ids) >= 2 and (bool(fail) or case.get("reconnect")))
+    R.cls("ble-subscriptions", "refusal" if fail else "no-refusal")
+
+    async def main(loop):
+        w = BleWorld(loop, k=case.get("k", 0))
+        try:
+            p = w.pairing
+            logs = attach_listeners(p)
+            await p.get_characteristics([(1, 10)])
+            c0 = w.client
+            c0.notify_fail = dict(fail)
+            what = f"BLE subscribe {ids} (start_notify refused for {sorted(fail)})"
+            for part in case.get("parts", [ids]):
+                await p.subscribe([(1, i) for i in part])
+                await asyncio.sleep(case.get("gap", 0))
+            await asyncio.sleep(30)
+            await vtime.settle(loop)
+            if w.client is not c0 or not c0.is_connected:
+                R.fail("C12.event-breaks-connection", f"{what}: the link went down while subscribing", exc="none")
+                return
+            for i in ids:
+                if i not in fail and i not in c0.notify:
+                    R.fail("C12.not-resubscribed", f"{what}: 30 s after subscribing no GATT notification is armed for {i} (armed: {sorted(c0.notify)}, start_notify calls {c0.notify_calls})", first=True)
+                    return
+            for l_ in logs:
+                l_.clear()
+            # a notification for every armed characteristic, one at a time
+            for n_, i in enumerate(sorted(c0.notify)):
+                if i != 11:
+                    continue
+                w.acc.chars[11]["value"] = bytes([40 + n_])
+                h = next(h_ for h_ in w.acc.handles if h_.iid == i)
+                c0.notify[i](h, bytearray())
+                await asyncio.sleep(5)
+                await vtime.settle(loop)
+                if not listeners_agree(R, logs, what):
+                    return
+                got = [ev for ev in logs[0] if (1, 11) in ev]
+                R.cls("ble-notification-delivered")
+                if got != [{(1, 11): {"value": 40 + n_}}]:
+                    R.fail("C12.listener-log", f"{what}: notification for 11 (value {40 + n_}): listeners saw {logs[0]!r:.300}", kind="missing" if not got else "different", raising_peer=False)
+                    return
+            if case.get("reconnect"):
+                c0.drop()
+                await vtime.settle(loop)
+                await p.get_characteristics([(1, 10)])
+                await asyncio.sleep(30)
+                await vtime.settle(loop)
+                c1 = w.client
+                if c1 is c0 or not c1.is_connected:
+                    R.fail("C12.not-resubscribed", f"{what}: no new link after the loss", first=False)
+                    return
+                for i in ids:
+                    if i not in c1.notify:
+                        R.fail("C12.not-resubscribed", f"{what}: after the link was re-established no GATT notification is armed for {i} (armed: {sorted(c1.notify)})", first=False)
+                        return
+            await p.shutdown()
+        finally:
+            w.restore()
+    vtime.run(main)
+
+
+def enum_c12_ble(tier):
+    pool = [10, 11, 12, 14, 15, 16]
+    for n in range(1, len(pool) + 1):
+        ids = pool[:n]
+        yield {"ids": ids, "reconnect": True}
+        for f in ids:
+            for how in ("once", "always"):
+                yield {"ids": ids, "fail": {str(f): how}}
+        if n >= 3:
+            yield {"ids": ids, "fail": {str(ids[0]): "always", str(ids[1]): "once"}, "parts": [ids[:1], ids[1:]], "gap": 0.1}
+
+
+@st.composite
+def c12_ble_cases(draw):
+    ids = draw(st.lists(st.sampled_from([10, 11, 12, 14, 15, 16]), min_size=1, max_size=6, unique=True))
+    fail = {str(i): draw(st.sampled_from(["once", "always"])) for i in ids if draw(st.integers(0, 3)) == 0}
+    cut = draw(st.integers(0, len(ids)))
+    return {"ids": ids, "fail": fail, "parts": [x for x in (ids[:cut], ids[cut:]) if x], "gap": draw(st.sampled_from([0, 0.1, 5])), "reconnect": not fail and draw(st.booleans()),
+            "k": draw(st.integers(0, 5))}
+
+
+C12_BLE_LAYERS = [
+    Layer("ble-subscriptions-fixed", run_c12_ble, enumerate=enum_c12_ble, exhaustive=True,
+          space="1..6 subscribed characteristics x {no refusal + link loss, start_notify refused once / always for each one, two refusals in two subscribe calls}", min_nontrivial=30),
+    Layer("ble-subscriptions", run_c12_ble, strategy=c12_ble_cases, n={"quick": 300, "thorough": 6000}),
+]
